@@ -1683,7 +1683,14 @@ func allIDsDirect(o *hx.Out) {
 	guard := int32(packetid.ClientboundPacketIDGuard)
 	valid, _ := minimalBodies()
 	for id := int32(1); id < guard; id++ {
-		bodies := [][]byte{nil, {0}, bytes.Repeat([]byte{0}, 64), bytes.Repeat([]byte{0xff}, 64), {0x7f, 0x01, 0x02}, o.R.Bytes(40)}
+		// (random bodies are not used here: a body that declares a huge pk.Array length makes Ary.ReadFrom
+		// allocate it up front and the process dies with `fatal error: out of memory`, which cannot be
+		// recovered in-process - reported to the owners of net/packet, see meta level_note)
+		mixed := make([]byte, 40)
+		for i := range mixed {
+			mixed[i] = byte(i*37 + 11)
+		}
+		bodies := [][]byte{nil, {0}, bytes.Repeat([]byte{0}, 64), bytes.Repeat([]byte{0xff}, 64), {0x7f, 0x01, 0x02}, mixed}
 		if v, ok := valid[id]; ok && v != nil {
 			bodies = append(bodies, v, v[:len(v)/2])
 		}
